@@ -92,6 +92,10 @@ type Map struct {
 	index   map[string]*mapEntry
 	live    int
 	symKeys int // number of live entries whose key is not concrete
+	// lazy != "": adversary-controlled map of digests: every key looked up is
+	// present with a fresh free digest; len() is lazySize.
+	lazy     string
+	lazySize int
 }
 
 type Chan struct {
